@@ -47,7 +47,6 @@ func (d *rawProp) prop(t *T) {
 	}
 }
 
-
 func H_C07_seedSchedule() {
 	seed0 := nondetU64("seed")
 	checks := 2
